@@ -7,6 +7,7 @@ TARGETS = {
     "asan": ["drv_sorted", "drv_pipeline", "drv_threads", "drv_lifecycle", "drv_pattern", "drv_json", "drv_config", "drv_signal"],
     "plain": ["drv_rotation", "drv_fatal"],
     "net": ["drv_http"],
+    "nothread": ["drv_fatal"],
 }
 
 
